@@ -172,8 +172,8 @@ func TestC08(t *testing.T) {
 
 var profMasking = Profile{
 	Name: "masking", MinSteps: 12, MaxSteps: 50, IterOpsMax: 10, MaxIters: 2, Masking: true,
-	W: map[string]int{"write": 30, "batch": 10, "flush": 9, "compact": 5, "wait": 3, "ingest": 4, "scan": 16, "iternew": 8, "iterop": 16, "iterclose": 3},
-	OpW: map[string]int{"set": 30, "del": 3, "merge": 2, "delrange": 2, "rkset": 20, "rkunset": 5, "rkdel": 3},
+	W: map[string]int{"write": 30, "batch": 14, "flush": 9, "compact": 5, "wait": 3, "ingest": 4, "scan": 20, "iternew": 8, "iterop": 16, "iterclose": 3},
+	OpW: map[string]int{"set": 34, "del": 2, "merge": 2, "delrange": 1, "rkset": 24, "rkunset": 3, "rkdel": 2},
 	Opt: func(t *rapid.T, o *OptPlan) {
 		o.BlockSize = rapid.SampledFrom([]int{1, 16, 64}).Draw(t, "maskbs")
 	},
